@@ -90,12 +90,13 @@ class VC:
         self.solver.pop()
         return r != z3.unsat
 
-    def _sign_oracle(self, t):
-        """'pos' / 'neg' when the path condition entails the sign of the Int term t, else None."""
+    def _sign_oracle(self, t, weak=False):
+        """'pos' / 'neg' when the path condition entails the sign of the term t (strict; with weak=True
+        'pos' means >= 0 and 'neg' means <= 0), else None."""
         try:
-            if not self.feasible(t <= 0):
+            if not self.feasible(t < 0 if weak else t <= 0):
                 return 'pos'
-            if not self.feasible(t >= 0):
+            if not self.feasible(t > 0 if weak else t >= 0):
                 return 'neg'
         except z3.Z3Exception:
             pass
